@@ -430,6 +430,47 @@ def identity_keyed_attribute_memos(run, rule, prog, eff, classes):
     return n
 
 
+def sibling_defaults(run, rule, mi):
+    """The public functions of one module that take a parameter of the same name give it the same default (they are entry points to the
+    same computation: scalar, array, 1D/2D/3D interpolator forms): a default that differs in one of at least three siblings makes that
+    entry point answer a different question when the argument is omitted."""
+    by = {}
+    fns = [(n, f) for n, f in dict.items(mi.functions) if not n.startswith('_')]
+    for cname, c in mi.classes.items():
+        if not cname.startswith('_'):
+            fns += [('%s.%s' % (cname, m.name), m) for m in c.body if isinstance(m, ast.FunctionDef) and m.name == '__init__']
+    for fname, f in fns:
+        a = f.args
+        pos = a.posonlyargs + a.args
+        ds = dict(zip([x.arg for x in pos[len(pos) - len(a.defaults):]], a.defaults))
+        ds.update({x.arg: d for x, d in zip(a.kwonlyargs, a.kw_defaults) if d is not None})
+        for p, d in ds.items():
+            by.setdefault(p, []).append((fname, f, norm(d)))
+    n = 0
+    for p, uses in sorted(by.items()):
+        if len(uses) < 3:
+            continue
+        vals = {}
+        for fname, f, d in uses:
+            vals.setdefault(d, []).append((fname, f))
+        if len(vals) == 1:
+            n += 1
+            run.subject(rule)
+            run.ok(rule, "default of '%s' in %s" % (p, mi.name.rsplit('.', 1)[-1]), '%s in %d functions' % (uses[0][2], len(uses)), sample=False)
+            continue
+        major = max(vals.items(), key=lambda kv: len(kv[1]))
+        odd = [(d, fs) for d, fs in vals.items() if d != major[0]]
+        if len(major[1]) >= len(uses) - 1 and len(major[1]) >= 3 and len(odd) == 1 and len(odd[0][1]) == 1:
+            n += 1
+            run.subject(rule)
+            fname, f = odd[0][1][0]
+            run.fail(rule, '%s|%s|default:%s' % (mi.name, fname, p), mi.relpath, f.lineno,
+                     "%s has %s=%s where the %d other public functions of the module taking '%s' have %s=%s: called without the argument it "
+                     "computes with a different value than its siblings (and than the same call through them)"
+                     % (fname, p, odd[0][0], len(major[1]), p, p, major[0]))
+    return n
+
+
 def last_call_memos(run, rule, mi, name, fn):
     """'global _last, _value; if arg is not _last: _value = f(arg); _last = arg' -- a one-entry memo keyed by the *identity* of an array:
     the array can be edited in place between two calls, the identity stays, the memoised value is stale."""
@@ -477,6 +518,7 @@ def check_caches(run, modules, rule, functions=None, prog=None, zero_is_a_value=
         if functions is None:
             nstores += memoised_file_readers(run, rule, mi)
             nstores += shared_default_results(run, rule, mi)
+            nstores += sibling_defaults(run, rule, mi)
         for cname, cnode in mi.classes.items():
             _class_level(run, rule, mi, cname, cnode)
             for d_ in (cnode.body if mi.is_cython else []):
